@@ -189,7 +189,8 @@ class ParseMCNPCell:
     @staticmethod
     def parse_material(material):
         '''Parse the material/density pair.'''
-        material_id = material.split()[0]
+        # the material number is an integer: `01` is material 1
+        material_id = str(int(material.split()[0]))
         if int(material_id) == 0:
             density = None
         else:
@@ -259,7 +260,7 @@ class ParseMCNPCell:
                 keywords['density'] = kw_list.pop()
             elif name == 'mat':
                 # only relevant for LIKE n BUT cells
-                keywords['material'] = kw_list.pop()
+                keywords['material'] = str(int(kw_list.pop()))
         return keywords
 
     def parse_fill_kw(self, elt, kw_list):
